@@ -2145,6 +2145,10 @@ def run_server_connect(case) -> CaseResult:
     except SASLPrepError:
         return CaseResult(['saslprep-refuses'], False)
 
+    if not user:
+        # (an empty user name starts no per-user evaluation at all)
+        return CaseResult(['empty-user'], False)
+
     root = tempfile.mkdtemp(prefix='c18s.')
     pair = None
 
